@@ -22,4 +22,7 @@ CONSTANTS
   DropGuarded = TRUE
   CreateFromDrop = FALSE
   ProbeAfterDrop = TRUE
+  PrefixPairs = {}
+  BareColls = {}
+  GcPrefix = FALSE
   TabT = {0, 1, 2, 3}
